@@ -107,6 +107,46 @@ class Prop:
             meta.append((c, f + '/sentences', b))
         outs2 = ctx.corr(lines, impl.step, 'decode')
         self.oracle(ctx, meta, outs2, via=lines)
+        # ... carried by a byte stream that arrives in small pieces (a sentence in three or more of them) through the
+        # socket readers: the delivered sentence carries exactly the payload bits (whose decoding is checked above)
+        lines, meta = [], []
+        for c, f, b in sub[::3]:
+            if (len(b) + 5) // 6 > 200:
+                continue
+            sent = gen.render(b)[0]
+            stream = sent + b'\r\n' + gen.render(gen.payload_bits(rng, 'MessageType27'))[0] + b'\n'
+            k = rng.choice([3, 5, 9, len(stream) // 4])
+            cuts = sorted(set(rng.sample(range(1, len(stream)), min(k, len(stream) - 1))))
+            pts = [0] + cuts + [len(stream)]
+            lines.append('socket 0 ' + ' '.join(stream[a:q].hex() for a, q in zip(pts, pts[1:])))
+            meta.append((c, f, b, sent))
+        outs3 = ctx.corr(lines, impl.step, 'socket')
+        for (c, f, b, sent), o, op in zip(meta, outs3, lines):
+            first = o.split(' ; ')[0]
+            if ('bits=%s ' % (b or '-')) not in first + ' ' or ('raw=%s ' % sent.hex()) not in first:
+                ctx.fail('the sentence delivered by the socket readers does not carry the payload that was sent',
+                         {'socket_op': op, 'bits': b, 'class': c, 'sent': sent.hex()}, 'raw=%s… bits=%s…' % (sent.hex()[:40], b[:40]), first[:300],
+                         {'kind': 'socket-carrier', 'class': c})
+        # ... and the communication state a decoded message reports (one more view of the radio bits of the layout)
+        from .c20 import RADIO_CLASSES, spec_commstate, utc_valid
+        widths = dict(RADIO_CLASSES)
+        lines, meta = [], []
+        for c, f, b in cs:
+            if c in widths and len(b) == gen.total_width(gen.concrete_classes()[c]):
+                lines.append('commstate_bits %s' % b)
+                meta.append((gen.TYPE_OF[c][0], int(b[-widths[c]:], 2), b))
+        outs4 = common.pmap(impl.step, lines)
+        ctx.evaluations += len(lines)
+        ctx.corr_commands['commstate_bits(oracle only)'] = len(lines)
+        for (t, r, b), o in zip(meta, outs4):
+            so, raw, d = spec_commstate(t, r)
+            if not utc_valid(raw) and so:
+                continue
+            exp = '%s %s %d %s' % (str(so).lower(), str(not so).lower(), raw, impl.show_cs(d))
+            if o != exp:
+                ctx.fail('the communication state a decoded message reports differs from the ITU reading of its radio bits',
+                         {'commstate_op': 'commstate_bits %s' % b, 'type': t, 'radio': r, 'expected': exp}, exp, o,
+                         {'kind': 'commstate', 'type': t})
 
     def members(self):
         """member values of the library's enumeration classes (the enumerations are part of its API)"""
@@ -149,6 +189,14 @@ class Prop:
 
     def replay(self, ctx, payload):
         inp = payload['failure']['input']
+        if 'socket_op' in inp:
+            first = impl.step(inp['socket_op']).split(' ; ')[0]
+            print('observed:', first[:300])
+            return ('bits=%s ' % (inp['bits'] or '-')) in first + ' ' and ('raw=%s ' % inp['sent']) in first
+        if 'commstate_op' in inp:
+            o = impl.step(inp['commstate_op'])
+            print('observed:', o, 'expected:', inp['expected'])
+            return o == inp['expected']
         cs = [(inp.get('class', '?'), inp.get('field', '?'), inp['bits'])]
         ctx.model_available = True
         if 'op' in inp:
